@@ -28,7 +28,7 @@ BOUNDSCHECK_TIERS = ("thorough",)
 
 
 def REQUIRED(tier):
-    return [f"t:{t}" for t in TRANSFORMS] + ["outputs_parsed", "outputs_compared", "spy:cwrite_calls", "regime:multi_block", "regime:subrange", "regime:multi_file_input", "regime:reader_with_history", "regime:single_read_over_64MiB", "regime:default_range_arguments", "regime:output_name_held_a_longer_file", "mask:nothing_flagged"]
+    return [f"t:{t}" for t in TRANSFORMS] + ["outputs_parsed", "outputs_compared", "spy:cwrite_calls", "regime:multi_block", "regime:subrange", "regime:multi_file_input", "regime:reader_with_history", "regime:single_read_over_64MiB", "regime:default_range_arguments", "regime:output_name_held_a_longer_file", "mask:nothing_flagged", "mask:non_finite_samples_in_masked_channels"]
 
 
 def cases(tier, seed):
@@ -222,6 +222,17 @@ def run_case(case, ctx):
             mval = int(rng.integers(0, min(2 ** min(nbits, 8), 64)))
             if nbits == 32 and rng.random() < 0.5:   # any float is a legal fill for a 32-bit file
                 mval = float(rng.choice([-2.5, -0.75, -1000.0, 1.0e6, 0.125]))
+            nonfin = nbits == 32 and mask.any() and case["pseed"] % 3 == 0
+            if nonfin:
+                # a dead channel that saturated / was NaN-blanked upstream is exactly what gets masked: rewrite the input with inf and NaN there
+                Xn = X.astype(np.float32).copy()
+                cm = np.flatnonzero(mask)
+                Xn[::3, cm[0]] = np.inf
+                Xn[1::4, cm[-1]] = np.nan
+                Xn[2::5, cm[0]] = -np.inf
+                paths = sigfile.write_split(d, Xn, 32, case["split"], fch1=1500.0, foff=-10.0, tsamp=1e-3, stem="nonfinite")
+                fil = FilReader(paths if len(paths) > 1 else paths[0])
+                ctx.count("mask:non_finite_samples_in_masked_channels")
             fil.apply_channel_mask(mask, mval, out, **rkw)
             want = seg.copy()
             want[:, mask] = mval
